@@ -177,6 +177,12 @@ def polytope_forms():
 
     def seg(v, d):
         a, b = [float(x) for x in v[:d]], [float(x) for x in v[d : 2 * d]]
+        if v[9] % 3 == 0:
+            # a segment on a coordinate axis / in a coordinate plane through the origin (one coordinate of both end points vanishes)
+            k = abs(v[10]) % d
+            a[k] = b[k] = 0.0
+            if d == 3 and v[11] % 2:
+                a[(k + 1) % 3] = b[(k + 1) % 3] = 0.0
         if a == b:
             raise Skip("degenerate")
         A, B = _pt(a), _pt(b)
@@ -336,6 +342,13 @@ def run_forms(pid):
                 va = sorted(tuple(np.round(C.pnorm(r).real, 7)) for r in a.reshape(-1, a.shape[-1]))
                 vb = sorted(tuple(np.round(C.pnorm(r).real, 7)) for r in b.reshape(-1, b.shape[-1]))
                 ck.check(va == vb, site + ":same-vertices", (va[:3], vb[:3]))
+                if isinstance(o, G.shapes.SegmentTensor):
+                    mid = np.append(0.5 * (np.real(b[0][:-1] / b[0][-1]) + np.real(b[1][:-1] / b[1][-1])), 1.0)
+                    x, fx = call(site + ":midpoint", lambda: o.midpoint)
+                    if fx:
+                        ck.add(fx)
+                    else:
+                        ck.check(C.peq_all(np.asarray(x.array), mid, 1, 1e-9), site + ":midpoint", (np.asarray(x.array).tolist(), mid.tolist()))
                 for attr in ("area", "length"):
                     if hasattr(o, attr) and hasattr(base, attr):
                         x, fx = call(site + ":" + attr, lambda: (getattr(o, attr), getattr(base, attr)))
